@@ -54,6 +54,17 @@ func (p *passive) KeyGen(ctx context.Context) ([]byte, error) {
 	return nil, ctx.Err()
 }
 
+// Signer side of the passive backend (signing sessions use the same reliable-broadcast path).
+func (p *passive) SetShareData([]byte) error    { return nil }
+func (p *passive) ThresholdPK() ([]byte, error) { return []byte("pk"), nil }
+func (p *passive) Sign(ctx context.Context, _ []byte) ([]byte, error) {
+	close(p.entered)
+	<-ctx.Done()
+	return nil, ctx.Err()
+}
+
+const signTopic = "rbc-sign-topic"
+
 // instSync is an instant synchroniser: it agrees at once on the configured participant list.
 type instSync struct{ members []uint16 }
 
@@ -126,6 +137,7 @@ func shortKey(k string) string {
 }
 
 type rcfg struct {
+	Sign         bool     // the session is a signing session (Scheme.Sign) instead of a key generation
 	Participants []uint16 // session participants (honest + Byzantine)
 	Honest       []uint16
 	All          []uint16 // configured membership (participants + outsiders)
@@ -182,7 +194,7 @@ func newRW(cfg rcfg) *rw {
 				}
 			}
 		}
-		p := threshold.LoudScheme(id, world.NopLogger{}, func(uint16) tss.KeyGenerator { return be }, nil, len(cfg.Participants)-1, send,
+		p := threshold.LoudScheme(id, world.NopLogger{}, func(uint16) tss.KeyGenerator { return be }, func(uint16) tss.Signer { return be }, len(cfg.Participants)-1, send,
 			func() map[tss.UniversalID]tss.PartyID { return mem })
 		sc, ok := p.(*threshold.Scheme)
 		if !ok {
@@ -209,6 +221,11 @@ func newRW(cfg rcfg) *rw {
 		w.done = append(w.done, d)
 		go func() {
 			defer close(d)
+			if cfg.Sign {
+				sc.SetStoredData([]byte("share"))
+				sc.Sign(ctx, world.Sha([]byte("digest")), signTopic)
+				return
+			}
 			sc.KeyGen(ctx, len(cfg.Participants), len(cfg.Participants))
 		}()
 	}
@@ -256,7 +273,11 @@ func (w *rw) deliver(from, to uint16, data string) {
 	if len(data) > 0 && data[0] == 255 {
 		w.direct[fmt.Sprintf("%d>%d:%s", from, to, data[1:])] = true
 	}
-	w.sch[to].HandleMessage(&tss.IncMessage{Data: []byte(data), Source: from, MsgType: uint8(tss.MsgTypeMPC), Topic: append([]byte(nil), dkgTopic...)})
+	topic := dkgTopic
+	if w.cfg.Sign {
+		topic = world.Sha([]byte(signTopic))
+	}
+	w.sch[to].HandleMessage(&tss.IncMessage{Data: []byte(data), Source: from, MsgType: uint8(tss.MsgTypeMPC), Topic: append([]byte(nil), topic...)})
 }
 
 // key is the canonical state: in-flight multiset (2 = many), receivers' private state, hand-overs
